@@ -18,6 +18,8 @@ import (
 
 func init() { register("C14", runC14) }
 
+var scanCalls int
+
 var scanAlphabet = []string{"{", "}", "%", "#", "-", "\\", " ", "a", "\x80"}
 
 // compareScan checks one source string against the model for both tokenizers, and the tokenizers
@@ -26,7 +28,16 @@ func compareScan(e *Env, src string, wsCtl bool, tag string) (bool, error) {
 	r := e.Rep
 	var got [2][]Tok
 	var gotErr [2]string
-	for i, which := range []string{"html", "opt"} {
+	// The tokenizer objects are pooled, so each run starts on whatever the previous run left behind. The order of
+	// the two runs alternates from call to call: each tokenizer then follows the other one on the same source as
+	// often as it follows itself (or the other one) on the PREVIOUS source.
+	scanCalls++
+	order := []int{0, 1}
+	if scanCalls%2 == 0 {
+		order = []int{1, 0}
+	}
+	for _, i := range order {
+		which := []string{"html", "opt"}[i]
 		toks, ec, pn := goTokens(src, which, wsCtl)
 		if pn != "" {
 			ec = "panic"
@@ -74,7 +85,8 @@ func compareScan(e *Env, src string, wsCtl bool, tag string) (bool, error) {
 func runC14(e *Env) error {
 	r := e.Rep
 	r.Rule = "token streams of both real tokenizers vs the Lean scanners on (a) every string of length ≤ N over {{ } % # - \\ space a 0x80} " +
-		"(b) random tag/literal interleavings incl. malformed, (c) padded renders straddling 320, 4096, 20K, 64K, 100K (thorough: 512K); " +
+		"(b) random tag/literal interleavings incl. malformed and every kind of atom as a whole print tag, (c) padded renders straddling 320, 4096, 20K, 64K, 100K (thorough: 512K), " +
+		"(c2) families of same-length variants (constructs slid, reordered, blanked inside the same padding) read by one engine through ParseTemplate / RegisterString / RegisterTemplate / a loader, expected = pads + each piece's own output; " +
 		"non-trivial = contains a tag opener (a) (b) or a padded render whose unpadded output is non-empty (c); distinct by source"
 	// (a) exhaustive small scope
 	depth := e.N(4, 6)
@@ -147,6 +159,8 @@ func runC14(e *Env) error {
 	if err := padOracle(e); err != nil {
 		return err
 	}
+	// (c2) one engine reads a family of same-length variants of a padded template through every route
+	familyOracle(e)
 	// (d) long literal text with multi-byte characters around the 32 KiB / 64 KiB buffer sizes comes out unchanged
 	bigTextOracle(e)
 	// (e) templates whose only tags are comments (no {{ and no {% anywhere), of every size class: the comments vanish
@@ -154,18 +168,37 @@ func runC14(e *Env) error {
 	return nil
 }
 
-// tagEdgeCorpus: opener + content + closer for every content of length ≤ 3 over {-, space, a, "}, bare and
-// embedded in text.
+// tagEdgeCorpus: opener + content + closer for every content of length ≤ 3 over {-, space, a, ", 1}, bare and
+// embedded in text; then every atom of printAtoms as the whole content of a print tag, with and without spaces
+// and dashes (a tag that holds one token is where a tokenizer is tempted to take a short cut).
 func tagEdgeCorpus() []string {
 	var out []string
 	pairs := [][2]string{{"{{", "}}"}, {"{%", "%}"}, {"{#", "#}"}, {"{{", "%}"}, {"{%", "}}"}}
-	allStrings([]string{"-", " ", "a", "\""}, 3, func(in string) bool {
+	allStrings([]string{"-", " ", "a", "\"", "1"}, 3, func(in string) bool {
 		for _, p := range pairs {
 			out = append(out, p[0]+in+p[1], "x "+p[0]+in+p[1]+" y")
 		}
 		return true
 	})
+	for _, a := range printAtoms {
+		for _, sp := range []string{" ", ""} {
+			out = append(out, "{{"+sp+a+sp+"}}", "x {{-"+sp+a+sp+"-}} y", "{{"+sp+a+sp+"}}{{"+sp+a+"|upper"+sp+"}}")
+		}
+	}
 	return out
+}
+
+// printAtoms: one spelling of every kind of token the expression lexer tells apart, usable as the whole content of
+// a print tag: names (letters, digits, underscores in every position a name allows), integers (zero, leading
+// zeros, long), floats, signed numbers, both string quotes, the word constants, and the shortest compound forms.
+var printAtoms = []string{
+	"a", "c", "name", "v1", "_k", "a1b2", "A_9", "undefinedvar", "x0",
+	"0", "7", "42", "007", "00", "1234567890", "9007199254740993",
+	"3.14", "0.5", "10.0", "1e3",
+	"-1", "-0", "+2", "-0.5", "- 3",
+	"'s'", "\"d\"", "''", "'4'", "'a b'", "'it\\'s'", "\"}}\"", "'{{'",
+	"true", "false", "null", "none", "TRUE", "True",
+	"(1)", "(a)", "[1]", "[]", "{}", "{'k': 1}", "1 + 2", "1+2", "2 * 3", "not t", "a ~ 1", "1 ~ 1", "xs[0]", "xs|first", "xs.0", "1..3", "c ? 1 : 2", "1 in xs", "c is odd",
 }
 
 func tokenCountTargets(thorough bool) []int {
@@ -306,7 +339,11 @@ func genTagSoup(r *rand.Rand, maxTags int) string {
 		sb.WriteString(genLit(r, 6))
 		switch r.Intn(6) {
 		case 0:
-			sb.WriteString("{{" + pick(r, []string{"", "-"}) + ws(r) + pick(r, ident) + ws(r) + pick(r, []string{"", "-"}) + "}}")
+			content := pick(r, ident)
+			if r.Intn(2) == 0 {
+				content = pick(r, printAtoms)
+			}
+			sb.WriteString("{{" + pick(r, []string{"", "-"}) + ws(r) + content + ws(r) + pick(r, []string{"", "-"}) + "}}")
 		case 1:
 			sb.WriteString("{#" + strings.ReplaceAll(genRaw(r, 8), "#}", "# }") + "#}")
 		case 2:
@@ -330,15 +367,20 @@ type piece struct{ src string }
 // genPieces returns independent top-level constructs (no dash at a piece boundary; the value of a
 // piece does not depend on where it stands) and a context for them.
 func genPieces(r *rand.Rand) ([]string, map[string]any) {
-	ctx := map[string]any{"a": "A1", "b": "", "c": 3, "xs": []interface{}{"p", "q", 7}, "t": true, "name": "<n&m>"}
+	ctx := map[string]any{"a": "A1", "b": "", "c": 3, "xs": []interface{}{"p", "q", 7}, "t": true, "name": "<n&m>",
+		"v1": "V1", "_k": "K", "a1b2": "AB", "A_9": 9, "x0": "X0"}
 	n := 1 + r.Intn(5)
 	ps := make([]string, 0, n)
 	for i := 0; i < n; i++ {
-		switch r.Intn(9) {
+		switch r.Intn(11) {
 		case 0:
 			ps = append(ps, genLit(r, 10))
 		case 1:
 			ps = append(ps, "{{ "+pick(r, []string{"a", "c", "name", "name|upper", "c + 1", "xs|length", "a ~ b ~ c"})+" }}")
+		case 9, 10:
+			// a print tag holding a single atom of any kind, with or without the optional spaces
+			sp := pick(r, []string{" ", " ", ""})
+			ps = append(ps, "{{"+sp+pick(r, printAtoms)+sp+"}}")
 		case 2:
 			ps = append(ps, "{# "+strings.ReplaceAll(genLit(r, 8), "#}", "")+" #}")
 		case 3:
